@@ -260,11 +260,84 @@ def rand_zp(rng, dtype):
     return rng.choice([lo, hi, 0 if dtype == "int8" else 128, rng.randint(lo, hi), rng.randint(lo, hi)])
 
 
+# ---- extremes stream: quantisation parameters at the ends of what a TFLite file can legally carry ------------------
+# scales log-uniform over 1e-8 .. 1e3 (heavy tails at both ends), zero points at both ends of the type range, per-axis
+# weight zero points != 0, per-axis scales spanning six orders of magnitude, min/max fields, activation parameters
+# (LEAKY_RELU alpha 0 / 1 / > 1 / negative, SOFTMAX beta 0 / tiny / large).  A builder draws from it only when
+# `B.set_extremes` switched it on for the network, so a network generated without it is unchanged.
+EXTREME_SCALES = [1e-8, 1e3, 1.0, 2.0, 3.0, 4.0, 6.0, 0.5, 2.0 ** -24, 255.0, 5.6, 88.0 / 128, 710.0 / 127, 1.0 / 3]
+EXTREME_ALPHAS = [0.0, 1.0, 1.5, 8.0, -0.5, -2.0, 1e-8, 1e3, 0.999, 2.0 ** -16]
+EXTREME_BETAS = [1.0, 0.0, 1e-6, 10.0, 100.0, -1.0, 1e3]
+
+
+def extreme_scale(rng):
+    r = rng.random()
+    if r < 0.30:
+        return float(np.float32(10.0 ** rng.uniform(-8, -4)))
+    if r < 0.60:
+        return float(np.float32(10.0 ** rng.uniform(0, 3)))
+    if r < 0.80:
+        return float(np.float32(10.0 ** rng.uniform(-4, 0)))
+    return float(np.float32(rng.choice(EXTREME_SCALES)))
+
+
+def extreme_zp(rng, dtype):
+    lo, hi = _qrange(dtype)
+    if dtype == "int16":
+        # TFLite int16 activations are symmetric; a non-zero value is still a legal file
+        return rng.choice([0, 0, 0, 0, lo, hi, 1, -1])
+    return rng.choice([lo, hi, lo, hi, lo + 1, hi - 1, rng.randint(lo, hi)])
+
+
 class B:
     """Incremental network builder that tracks shapes."""
 
     def __init__(self, rng, name="net", dtype="int8"):
         self.rng, self.net, self.dtype, self.n = rng, Net(name), dtype, 0
+        self.extreme = 0.0      # probability that one quantisation choice is drawn from the extremes stream
+
+    def set_extremes(self, p_net, p_choice=0.4):
+        """with probability `p_net` this network draws (each choice with probability `p_choice`) from the extremes stream"""
+        if self.rng.random() < p_net:
+            self.extreme = p_choice
+            self.net.desc.append(f"extremes={p_choice}")
+        return self.extreme
+
+    def ex(self):
+        return bool(self.extreme) and self.rng.random() < self.extreme
+
+    def q_scale(self, lo=-9, hi=-1):
+        return extreme_scale(self.rng) if self.ex() else rand_scale(self.rng, lo, hi)
+
+    def q_zp(self, dtype):
+        return extreme_zp(self.rng, dtype) if self.ex() else rand_zp(self.rng, dtype)
+
+    def weight_quant(self, oc, wd, per_channel):
+        """(scales, zero points) of a weight tensor"""
+        rng = self.rng
+        if self.ex():
+            style = rng.choice(["span6", "span6_asym", "asym_axis", "asym_tensor", "one_extreme"])
+            n = oc if (per_channel or style in ("span6", "span6_asym", "asym_axis")) and wd == "int8" else 1
+            if style.startswith("span6"):
+                ws = [float(np.float32(10.0 ** rng.uniform(-7, -1))) for _ in range(n)]
+            elif style == "one_extreme":
+                ws = [extreme_scale(rng) for _ in range(n)]
+            else:
+                ws = [rand_scale(rng, -8, -3) for _ in range(n)]
+            lo, hi = _qrange(wd)
+            if style in ("span6_asym", "asym_axis") and n > 1:
+                wz = [rng.choice([lo, hi, 0, 1, -1, rng.randint(lo, hi)]) for _ in range(n)]
+                if not any(wz):
+                    wz[rng.randrange(n)] = rng.choice([lo, hi, 3])
+            elif style == "asym_tensor":
+                wz = [rng.choice([lo, hi, hi, 1, 100 if wd == "uint8" else -7])] * n
+            else:
+                wz = [0] * n if wd == "int8" else [rng.choice([0, 128, 255])] * n
+            self.net.desc.append("wq:" + style)
+            return ws, wz
+        ws = [rand_scale(rng, -8, -3) for _ in range(oc if per_channel else 1)]
+        wz = [0] * len(ws) if wd == "int8" else [rng.randint(100, 150)]
+        return ws, wz
 
     def fresh(self, prefix):
         self.n += 1
@@ -273,8 +346,8 @@ class B:
     def fm(self, shape, dtype=None, scale=None, zp=None, name=None):
         dtype = dtype or self.dtype
         if dtype in ("int8", "uint8", "int16"):
-            scale = rand_scale(self.rng) if scale is None else scale
-            zp = rand_zp(self.rng, dtype) if zp is None else zp
+            scale = self.q_scale() if scale is None else scale
+            zp = self.q_zp(dtype) if zp is None else zp
             return self.net.add(T(name or self.fresh("t"), shape, dtype, [scale], [zp]))
         return self.net.add(T(name or self.fresh("t"), shape, dtype))
 
@@ -325,8 +398,7 @@ class B:
         wd = "int8" if xt.dtype in ("int8", "int16") else "uint8"
         per_channel = rng.random() < 0.5 if per_channel is None else per_channel
         per_channel = per_channel and wd == "int8"
-        ws = [rand_scale(rng, -8, -3) for _ in range(oc if per_channel else 1)]
-        wz = [0] * len(ws) if wd == "int8" else [rng.randint(100, 150)]
+        ws, wz = self.weight_quant(oc, wd, per_channel)
         wt = self.const([oc, k[0], k[1], c], wd, self.rand_weights([oc, k[0], k[1], c], wd, wstyle), ws, wz, 0, self.fresh("w"))
         bdt = "int64" if xt.dtype == "int16" else "int32"
         ins = [x, wt]
@@ -351,8 +423,7 @@ class B:
         oc = c * mult
         wd = "int8" if xt.dtype in ("int8", "int16") else "uint8"
         per_channel = (rng.random() < 0.5 if per_channel is None else per_channel) and wd == "int8"
-        ws = [rand_scale(rng, -8, -3) for _ in range(oc if per_channel else 1)]
-        wz = [0] * len(ws) if wd == "int8" else [rng.randint(100, 150)]
+        ws, wz = self.weight_quant(oc, wd, per_channel)
         wt = self.const([1, k[0], k[1], oc], wd, self.rand_weights([1, k[0], k[1], oc], wd), ws, wz, 3, self.fresh("w"))
         bdt = "int64" if xt.dtype == "int16" else "int32"
         bs = [xt.scales[0] * s for s in ws]
@@ -385,8 +456,11 @@ class B:
         ic = xt.shape[-1]
         n = int(np.prod(xt.shape[:-1]))
         wd = "int8" if xt.dtype in ("int8", "int16") else "uint8"
-        ws = [rand_scale(rng, -8, -3)]
-        wz = [0] if wd == "int8" else [rng.randint(100, 150)]
+        if self.ex():
+            ws, wz = [extreme_scale(rng)], [extreme_zp(rng, wd) if rng.random() < 0.5 else (0 if wd == "int8" else 128)]
+        else:
+            ws = [rand_scale(rng, -8, -3)]
+            wz = [0] if wd == "int8" else [rng.randint(100, 150)]
         wt = self.const([oc, ic], wd, self.rand_weights([oc, ic], wd), ws, wz, 0, self.fresh("w"))
         bdt = "int64" if xt.dtype == "int16" else "int32"
         br = np.random.RandomState(rng.getrandbits(32))
@@ -412,6 +486,11 @@ class B:
         if kind in ("RELU", "RELU6", "RELU_N1_TO_1"):
             o = self.fm(xt.shape, xt.dtype, scale=xt.scales[0], zp=xt.zps[0])
             self.net.ops.append(Op(kind, [x], [o]))
+        elif kind in ("LOGISTIC", "TANH", "SOFTMAX") and xt.dtype in ("int8", "uint8", "int16") and self.ex():
+            # extremes stream: any output quantisation (a converter writes the fixed one, the file format allows all)
+            o = self.fm(xt.shape, xt.dtype)
+            beta = float(self.rng.choice(EXTREME_BETAS))
+            self.net.ops.append(Op(kind, [x], [o], ("SoftmaxOptions", dict(Beta=beta)) if kind == "SOFTMAX" else None))
         elif kind == "LOGISTIC":
             o = self.fm(xt.shape, xt.dtype, scale=1.0 / 256 if xt.dtype != "int16" else 1.0 / 32768,
                         zp={"int8": -128, "uint8": 0, "int16": 0}[xt.dtype])
@@ -422,11 +501,13 @@ class B:
             self.net.ops.append(Op(kind, [x], [o]))
         elif kind == "LEAKY_RELU":
             o = self.fm(xt.shape, xt.dtype)
-            self.net.ops.append(Op(kind, [x], [o], ("LeakyReluOptions", dict(Alpha=float(self.rng.choice([0.1, 0.2, 0.01, 0.5]))))))
+            alpha = float(self.rng.choice(EXTREME_ALPHAS)) if self.ex() else float(self.rng.choice([0.1, 0.2, 0.01, 0.5]))
+            self.net.ops.append(Op(kind, [x], [o], ("LeakyReluOptions", dict(Alpha=alpha))))
         elif kind == "SOFTMAX":
             o = self.fm(xt.shape, xt.dtype, scale=1.0 / 256 if xt.dtype != "int16" else 1.0 / 32768,
                         zp={"int8": -128, "uint8": 0, "int16": 0}[xt.dtype])
-            self.net.ops.append(Op(kind, [x], [o], ("SoftmaxOptions", dict(Beta=1.0))))
+            beta = float(self.rng.choice(EXTREME_BETAS)) if self.ex() else 1.0
+            self.net.ops.append(Op(kind, [x], [o], ("SoftmaxOptions", dict(Beta=beta))))
         else:  # HARD_SWISH, ABS, ...
             o = self.fm(xt.shape, xt.dtype)
             self.net.ops.append(Op(kind, [x], [o]))
@@ -563,6 +644,18 @@ class B:
 
     def finish(self, outs):
         self.net.outputs = list(outs)
+        if self.extreme:
+            # min / max fields (calibration range as some converters keep it) on about half of the quantised tensors
+            rng = self.rng
+            for t in self.net.tensors:
+                if t.scales is not None and t.dtype in ("int8", "uint8", "int16") and t.qmin is None and rng.random() < 0.5:
+                    lo, hi = _qrange(t.dtype)
+                    zps = t.zps if t.zps is not None else [0] * len(t.scales)
+                    if rng.random() < 0.85:
+                        t.qmin = [float(np.float32(s_ * (lo - z))) for s_, z in zip(t.scales, zps)]
+                        t.qmax = [float(np.float32(s_ * (hi - z))) for s_, z in zip(t.scales, zps)]
+                    else:
+                        t.qmin, t.qmax = rng.choice([([0.0], [0.0]), ([-1e30], [1e30]), ([1.0], [-1.0]), ([-6.0], [6.0])])
         return self.net
 
 
@@ -586,6 +679,7 @@ def random_net(rng, idx=0, profile="mixed", dtype=None, max_ops=6):
         h, w, c = rng.choice([4, 6, 8]), rng.choice([4, 8]), rng.choice([32, 64, 96, 128])
     else:
         h, w, c = rng.randint(1, 20), rng.randint(1, 20), rng.choice([1, 2, 3, 4, 7, 8, 16, 17, 24, 32])
+    b.set_extremes(0.12)
     x = b.input([1, h, w, c])
     b.net.desc.append(f"profile={profile} dtype={dtype} in={[1, h, w, c]}")
     live = [x]
@@ -634,7 +728,7 @@ def random_net(rng, idx=0, profile="mixed", dtype=None, max_ops=6):
             shp = rng.choice([[1, 1, 1, cc], [1, 1, 1, 1], xt.shape])
             lo, hi = _qrange(xt.dtype)
             r = np.random.RandomState(rng.getrandbits(32))
-            c2 = b.const(shp, xt.dtype, r.randint(lo, hi + 1, int(np.prod(shp))), [rand_scale(rng)], [rand_zp(rng, xt.dtype)])
+            c2 = b.const(shp, xt.dtype, r.randint(lo, hi + 1, int(np.prod(shp))), [b.q_scale()], [b.q_zp(xt.dtype)])
             args = (cur, c2) if rng.random() < 0.7 else (c2, cur)
             new = b.binary("MUL" if kind == "mul_const" else rng.choice(["SUB", "ADD"]), *args)
         elif kind == "minmax":
@@ -700,6 +794,8 @@ def cascade_net(rng, idx=0, h=None, w=None, c=None, specs=None, dtype="int8"):
     h = h or rng.choice([33, 37, 40, 41, 48, 49, 50, 64])
     w = w or rng.choice([32, 48, 64])
     c = c or rng.choice([16, 32])
+    if specs is None:
+        b.set_extremes(0.08)
     x = b.input([1, h, w, c])
     cur = x
     specs = specs or [(rng.choice([1, 3, 3, 5]), rng.choice([1, 1, 2, 3]), rng.choice(["SAME", "VALID"]), rng.choice(["conv", "conv", "dw", "pool"]))
@@ -737,6 +833,7 @@ def weird_net(rng, idx=0):
                        "cast", "fc2d", "pool_big", "conv_big_stride", "dyn_weights", "slice", "float_conv", "int32_add",
                        "gather", "dup_inputs", "no_ops_passthrough", "exp_int8", "squeeze", "pad5", "mean_all"])
     b.net.desc.append(f"weird kind={kind} dtype={dtype} dims={dims}")
+    b.set_extremes(0.5, 0.7)
 
     def tensor(shape, dt=None, quant=True, name=None):
         dt = dt or dtype
@@ -900,6 +997,7 @@ def pattern_net(rng, idx=0, pattern=None, variant=None):
     dtype = rng.choice(["int8", "int8", "uint8"])
     b = B(rng, f"pat{idx}_{pattern}", dtype)
     b.net.desc.append(f"pattern={pattern} dtype={dtype}")
+    b.set_extremes(0.1)
     if pattern == "multi_input":
         shp = [1, rng.randint(4, 16), rng.randint(4, 16), rng.choice([4, 8, 16])]
         x1, x2 = b.input(shp), b.input(shp)
